@@ -165,6 +165,15 @@ Section Return.
     reflexivity.
   Qed.
 
+  Lemma failure_plain_hmac_ok k code d m :
+    hmac (fk_um k) (skipn 32 (failure_plain k code d m)) = firstn 32 (failure_plain k code d m).
+  Proof.
+    unfold OnionFail.failure_plain.
+    rewrite skipn_app, skipn_all2, hmac_length, Nat.sub_diag by (rewrite hmac_length; lia).
+    rewrite firstn_app, firstn_all2, hmac_length, Nat.sub_diag by (rewrite hmac_length; lia).
+    cbn [skipn firstn]. now rewrite !app_nil_r.
+  Qed.
+
   (** ** Attribution *)
 
   (** No hop before the failing one sees, after removing its own layer, a packet whose first 32
